@@ -1,3 +1,3 @@
 //! C04 - codecs round-trip every packet and interoperate between client and broker.
-mod varint;
+pub mod varint;
 pub mod rt_v4;
